@@ -3,6 +3,7 @@ import PqlModel.Props.C11b
 import PqlModel.Props.C11Compile
 import PqlModel.Props.C11WalkIRPushes
 import PqlModel.Props.C11WalkIR
+import PqlModel.Props.IRHeadlinesD
 #print axioms Pql.C11.C11_children_complete
 #print axioms Pql.C11.C11_render_props_complete
 #print axioms Pql.C11.C11_nil_guarded
@@ -36,3 +37,6 @@ import PqlModel.Props.C11WalkIR
 #print axioms Pql.AstIR.C11_walk_ir
 #print axioms Pql.AstIR.C11_walk_ir_model
 #print axioms Pql.AstIR.C11_walk_ir_preorder
+#print axioms Pql.IRHead.C11_walk_headlines_ir
+#print axioms Pql.IRHead.C11_on_translated_code
+#print axioms Pql.IRHead.C11_on_translated_code_nonvacuous
